@@ -177,6 +177,9 @@ Fixpoint parse_objs (fuel : nat) (rest : bytes) : res (list gobj) :=
         let id := unle (slice rest 0 2) in
         let nrefs := unle (slice rest 2 2) in
         let sz := unle (slice rest 8 8) in
+        if blen rest - 16 <? sz                (* objSize > len - offset - objHeaderSize *)
+        then (if id =? 0 then Ok [] else Err EBeyond)
+        else
         if id =? 0 then parse_objs k (skipn (N.to_nat (16 + align8 sz)) rest)
         else if blen rest <? 16 + sz then Err EBeyond
         else match parse_objs k (skipn (N.to_nat (16 + align8 sz)) rest) with
@@ -357,32 +360,4 @@ Definition vlen_recognised (b : vbase) (m : bytes) : bool :=
          | Ok bd => let '(c, s, f) := base_cls b in
                     (d_class bd =? c) && (d_size bd =? s) && (d_bits bd =? f)
          end
-  end.
-
-(* ------------------------------------------------------------------ predicates evaluated by the tie *)
-Definition res_bytes_eqb (r : res bytes) (b : bytes) : bool :=
-  match r with Ok x => bytes_eqb x b | Err _ => false end.
-
-Fixpoint all_resolve (f : list (N * bytes)) (ids : list heapid) (ds : list bytes) : bool :=
-  match ids, ds with
-  | [], [] => true
-  | id :: ir, d :: dr => res_bytes_eqb (resolve f (encode_reference id)) d && all_resolve f ir dr
-  | _, _ => false
-  end.
-
-Definition extent_eqb (x y : N * bytes) : bool := (fst x =? fst y) && bytes_eqb (snd x) (snd y).
-
-(* one tie case: parameters, end-of-file at the first heap allocation, history, and what the Go code
-   produced: the concatenated 16-byte references in element order and the collections found in the
-   file in address order.  Checks: the model predicts exactly these bytes; the model's own reader
-   resolves every reference to the written element on the model's file AND on Go's file. *)
-Definition tie_case_ok (minsz blk e0 : N) (ops : list op) (go_refs : bytes) (go_colls : list (N * bytes)) : bool :=
-  match run_close minsz blk e0 ops with
-  | None => false
-  | Some (fin, ids) =>
-      bytes_eqb (flat_map encode_reference ids) go_refs
-      && list_eqb extent_eqb (rev (disk fin)) go_colls
-      && all_resolve (disk fin) ids (writes ops)
-      && all_resolve go_colls ids (writes ops)
-      && forallb (fun e => wf_gcol 16 (snd e)) (disk fin)
   end.
